@@ -291,12 +291,15 @@ class Sectionable(BaseObject):
             raise TypeError("'%s' object is not iterable" % type(sec_list).__name__)
 
         # Make sure only Sections with unique names will be added.
+        new_names = []
         for sec in sec_list:
             if not isinstance(sec, BaseSection):
                 raise ValueError("Can only extend objects of type Section.")
 
-            if isinstance(sec, BaseSection) and sec.name in self._sections:
+            if sec.name in self._sections or sec.name in new_names:
                 raise KeyError("Section with name '%s' already exists." % sec.name)
+
+            new_names.append(sec.name)
 
         for sec in sec_list:
             self.append(sec)
